@@ -149,12 +149,13 @@ func (g *g4Grammar) operatorLevels() [][]string {
 // ---------------------------------------------------------------------------------------------- the check
 
 type c17 struct {
-	p   *core.Program
-	r   *core.Report
-	ev  *tEval
-	pkg *ssa.Package
-	g1  *g4Grammar
-	g3  *g4Grammar
+	evDepth int
+	p       *core.Program
+	r       *core.Report
+	ev      *tEval
+	pkg     *ssa.Package
+	g1      *g4Grammar
+	g3      *g4Grammar
 
 	closedNodeTypes map[string]bool // excellent.<Node> types that print as one atom
 	identPreds      map[*ssa.Function]string
@@ -591,6 +592,54 @@ func (c *c17) condEvidence(kind evKind, cond ssa.Value, taken bool, val ssa.Valu
 		}
 		if why, ok := c.identPreds[f]; ok && len(x.Call.Args) == 1 && stripIface(x.Call.Args[0]) == stripIface(val) {
 			return true, f.Name() + ": " + why
+		}
+		// a boolean helper of the package that is handed the value: every `return true` of the helper carries the
+		// evidence about the parameter the value was passed for
+		if f.Blocks != nil && core.FuncPkgPath(f) == c.pkg.Pkg.Path() && c.evDepth < 2 && f.Signature.Results().Len() == 1 {
+			if b, isB := f.Signature.Results().At(0).Type().Underlying().(*types.Basic); isB && b.Kind() == types.Bool {
+				for i, a := range x.Call.Args {
+					if stripIface(a) != stripIface(val) || i >= len(f.Params) {
+						continue
+					}
+					c.evDepth++
+					all, sawTrue := true, false
+					var whys []string
+					for _, ret := range core.Returns(f) {
+						var trueBlocks []*ssa.BasicBlock
+						switch rv := ret.Results[0].(type) {
+						case *ssa.Const:
+							if rv.Value != nil && rv.Value.String() == "true" {
+								trueBlocks = append(trueBlocks, ret.Block())
+							}
+						case *ssa.Phi:
+							for k, e := range rv.Edges {
+								if cst, isC := e.(*ssa.Const); isC && cst.Value != nil {
+									if cst.Value.String() == "true" {
+										trueBlocks = append(trueBlocks, rv.Block().Preds[k])
+									}
+									continue
+								}
+								all = false
+							}
+						default:
+							all = false
+						}
+						for _, tb := range trueBlocks {
+							sawTrue = true
+							ok, why := c.blockEvidence(kind, tb, f.Params[i], map[*ssa.BasicBlock]bool{})
+							if !ok {
+								all = false
+							}
+							whys = append(whys, why)
+						}
+					}
+					c.evDepth--
+					if all && sawTrue {
+						sort.Strings(whys)
+						return true, f.Name() + ": " + strings.Join(uniq(whys), "; ")
+					}
+				}
+			}
 		}
 	}
 	return false, ""
